@@ -7,9 +7,10 @@ pub const CONTEXTS: [&str; 23] = [
     "when", "unless", "apply", "apply-apply", "apply-renamed", "apply-prefixed", "if-variable-test", "if-non-boolean-test", "when-variable-test", "and-variable-test",
 ];
 pub const SHAPES: [&str; 6] = ["self", "mutual-2", "mutual-3", "through-parameter", "variadic", "closure-returned"];
-pub const SHAPES_ALL: [&str; 21] = [
+pub const SHAPES_ALL: [&str; 25] = [
     "self", "mutual-2", "mutual-3", "through-parameter", "variadic", "closure-returned", "internal-definition", "fresh-closure-per-iteration", "apply-as-parameter",
     "body-with-internal-variable", "body-with-internal-procedure", "through-forwarder", "forwarder-cycle", "operator-is-a-conditional", "operator-is-and-or", "operator-with-an-effect", "let*-bound-procedure", "when-with-several-forms", "closure-over-the-loop-frame", "no-operands-self", "no-operands-mutual",
+    "variadic-empty-rest", "variadic-rest-dropped-after-first-call", "variadic-args-only", "variadic-mutual-with-fixed",
 ];
 
 /// put `x` (an expression in tail position) into the tail position of the given context
@@ -84,6 +85,33 @@ pub fn program(shape: &str, ctxs: &[&str], n: u32) -> Vec<String> {
             // the accumulator travels in the rest parameter and is re-spread
             forms.push(format!("(define (loop i . rest) (probe i) (if (= i 0) (car rest) {}))", w("(loop (- i 1) (step (car rest) i) 0)")));
             forms.push(format!("(loop {} 1 0)", n));
+        }
+        "variadic-empty-rest" => {
+            // fixed parameters plus a rest parameter that every call leaves empty
+            forms.push(format!("(define (loop i acc . extras) (probe i) (if (= i 0) (if (null? extras) acc -1) {}))", w("(loop (- i 1) (step acc i))")));
+            forms.push(format!("(loop {} 1)", n));
+        }
+        "variadic-rest-dropped-after-first-call" => {
+            // the first call passes extra arguments, the recursive ones only the fixed ones
+            forms.push(format!("(define (loop i acc . extras) (probe i) (if (= i 0) (if (null? extras) acc -1) {}))", w("(loop (- i 1) (step acc i))")));
+            forms.push(format!("(loop {} 1 'x 'y)", n));
+        }
+        "variadic-args-only" => {
+            // (lambda args ...): everything travels in the rest list
+            forms.push(format!(
+                "(define (loop . args) (probe (car args)) (if (= (car args) 0) (cadr args) {}))",
+                w("(loop (- (car args) 1) (step (cadr args) (car args)))")
+            ));
+            forms.push(format!("(loop {} 1)", n));
+        }
+        "variadic-mutual-with-fixed" => {
+            // a variadic and a fixed-arity procedure call each other; the variadic one gets an empty / a one-element rest list in turn
+            forms.push(format!("(define (loop-a i acc . extras) (probe i) (if (= i 0) acc {}))", w("(loop-b (- i 1) (step acc i))")));
+            forms.push(format!(
+                "(define (loop-b i acc) (probe i) (if (= i 0) acc {}))",
+                w("(if (= 0 (floor-remainder i 2)) (loop-a (- i 1) (step acc i)) (loop-a (- i 1) (step acc i) i))")
+            ));
+            forms.push(format!("(loop-a {} 1)", n));
         }
         "closure-returned" => {
             forms.push(format!("(define (make-loop) (lambda (self i acc) (probe i) (if (= i 0) acc {})))", w("(self self (- i 1) (step acc i))")));
@@ -300,7 +328,7 @@ pub fn judge(shape: &str, ctxs: &[&str], n: u32) -> Report {
 pub fn run(ctx: &Ctx) {
     ctx.set_rule(
         "loop programs = loop shape (self, 2-/3-way mutual, through a procedure parameter, variadic with re-spread rest \
-         argument, closure-returned, internal definition, a fresh closure per iteration, apply arriving as a parameter and handed to itself, a looping body with internal \
+         argument, variadic with an empty rest list (always / after the first call / alternating through a fixed-arity partner), all arguments in a rest list, closure-returned, internal definition, a fresh closure per iteration, apply arriving as a parameter and handed to itself, a looping body with internal \
          variable definitions / with an internal procedure definition, the tail call forwarded by (define (forward f . args) (apply f args)), a three-procedure cycle through \
          one-call bodies, a tail call whose operator is an if / cond / and / or expression, a tail call whose operator \
          expression counts its own evaluations, a loop without operands whose state lives in globals) x composition of tail contexts (23: body-last, if-then, if-else, if / when / and with a variable or a non-boolean true value as test, \
